@@ -26,6 +26,7 @@ from ..engine import (
     enclosing_class,
     kwarg,
     norm,
+    parent,
     qualname_of,
     stmt_of,
     walk_no_nested,
@@ -263,3 +264,463 @@ def run(repo: Repo, R: Report) -> None:
                 consumed = tmpl is not None and any(fnmatch(tmpl, p) for p in patterns)
                 repo.consulted.add(mod.rel)
                 R.check(consumed, r_obj, mod.rel, qn, norm(c)[:90], "messages are published to a channel nothing in the package subscribes to: the in-memory transport retains one Message (data, context) per node per run on a reused Pipeline", c.lineno)
+
+    # ------------------------------------------------------------------ D4
+    _run_input_read_only(repo, R)
+
+
+def _spec_roots(repo: Repo) -> Tuple[ast.ClassDef, Dict[str, ast.AST], List[Tuple[ast.AST, ast.Call, Dict[str, str]]]]:
+    """The Pipeline class, its configuration-derived attributes (attr -> defining statement in __init__)
+    and the calls `<orchestrator>.execute(...)` with the parameter each such attribute is bound to."""
+    mod = repo.module(PIPE)
+    pcls = repo.cls(PIPE, "Pipeline")
+    init = next((n for n in pcls.body if isinstance(n, FuncNode) and n.name == "__init__"), None)
+    if init is None:
+        raise AnalysisError("Pipeline.__init__ not found")
+    a = init.args
+    pos = a.posonlyargs + a.args
+    required = {p.arg for p in pos[1:len(pos) - len(a.defaults)]} | {p.arg for p, d in zip(a.kwonlyargs, a.kw_defaults) if d is None}
+    derived = set(required)
+    attrs: Dict[str, ast.AST] = {}
+    changed = True
+    while changed:
+        changed = False
+        for n in walk_no_nested(init):
+            if not isinstance(n, (ast.Assign, ast.AnnAssign)) or getattr(n, "value", None) is None:
+                continue
+            if not any(isinstance(x, ast.Name) and x.id in derived for x in ast.walk(n.value)):
+                continue
+            for t in (n.targets if isinstance(n, ast.Assign) else [n.target]):
+                for x in ast.walk(t):
+                    if isinstance(x, ast.Name) and isinstance(x.ctx, ast.Store) and x.id not in derived:
+                        derived.add(x.id)
+                        changed = True
+                    if isinstance(x, ast.Attribute) and isinstance(x.value, ast.Name) and x.value.id == "self" and x.attr not in attrs:
+                        attrs[x.attr] = n
+                        changed = True
+    calls = []
+    for f in [n for n in pcls.body if isinstance(n, FuncNode)]:
+        for c in calls_in(f):
+            if call_attr(c) != "execute" or not isinstance(c.func, ast.Attribute):
+                continue
+            bound: Dict[str, str] = {}
+            for k in c.keywords:
+                d = dotted_name(k.value) or ""
+                if k.arg and d.startswith("self.") and d[5:] in attrs:
+                    bound[k.arg] = d[5:]
+            for i, v in enumerate(c.args):
+                d = dotted_name(v) or ""
+                if d.startswith("self.") and d[5:] in attrs:
+                    bound[f"#{i}"] = d[5:]
+            if bound:
+                calls.append((f, c, bound))
+    return pcls, attrs, calls
+
+
+def _run_input_read_only(repo: Repo, R: Report) -> None:
+    r_spec = R.rule(
+        "C18-D4-run-input-not-rewritten",
+        "what a long-lived Pipeline hands to every run (the specification built from its configuration) is read-only on the run path: "
+        "every in-place store reachable from execute() hits an object the run created (a copy down to the stored level), and the Pipeline "
+        "never rebinds or mutates those attributes after construction - otherwise the output of run N (generated classes, resolved objects) "
+        "is the input of run N+1",
+        4,
+    )
+    pcls, attrs, calls = _spec_roots(repo)
+    if not attrs or not calls:
+        raise AnalysisError("Pipeline: configuration-derived attributes handed to <orchestrator>.execute not found")
+    handed = {a for _f, _c, b in calls for a in b.values()}
+    # (a) the Pipeline itself keeps them as built
+    for f in [n for n in pcls.body if isinstance(n, FuncNode)]:
+        qn = f"Pipeline.{f.name}"
+        for n in walk_no_nested(f):
+            tgts = n.targets if isinstance(n, ast.Assign) else [n.target] if isinstance(n, (ast.AugAssign, ast.AnnAssign)) and getattr(n, "value", None) is not None else []
+            for t in tgts:
+                for x in ([t] if not isinstance(t, (ast.Tuple, ast.List)) else list(t.elts)):
+                    d = dotted_name(x) or ""
+                    if d.startswith("self.") and d[5:] in handed and f.name != "__init__":
+                        R.violation(r_spec, PIPE, qn, norm(n), f"`{d}` is handed to every run and rebound after construction: the next run starts from what this one left", n.lineno)
+        for st, container in _store_sites(f):
+            root = container
+            while isinstance(root, (ast.Subscript, ast.Call, ast.Attribute)) and not (isinstance(root, ast.Attribute) and isinstance(root.value, ast.Name)):
+                root = root.func if isinstance(root, ast.Call) else root.value
+            d = dotted_name(root) or ""
+            if d.startswith("self.") and d[5:] in handed:
+                R.violation(r_spec, PIPE, qn, norm(st), f"in-place change of `{d}`, which is handed to every run of this Pipeline", st.lineno)
+    for attr in sorted(handed):
+        R.ok(r_spec, PIPE, "Pipeline", f"self.{attr} bound in __init__ only", "configuration-derived, handed to execute()", attrs[attr].lineno)
+    # (b) the run path does not store into them
+    flow = _SpecFlow(repo)
+    n_targets = 0
+    for f, c, bound in calls:
+        for tmod, tfn in repo.resolve_call_by_name(c):
+            if not isinstance(tfn, FuncNode) or not isinstance(parent(tfn), ast.ClassDef):
+                continue
+            a = tfn.args
+            pos = [p.arg for p in a.posonlyargs + a.args][1:]
+            names = set(pos) | {p.arg for p in a.kwonlyargs}
+            binding: Dict[str, object] = {}
+            for k, attr in bound.items():
+                if k.startswith("#"):
+                    if int(k[1:]) < len(pos):
+                        binding[pos[int(k[1:])]] = SHARED
+                elif k in names:
+                    binding[k] = SHARED
+            if len(binding) != len(bound):
+                continue  # another `execute` (different signature)
+            n_targets += 1
+            flow.analyse(tmod, tfn, binding, (f"{PIPE}:Pipeline.{f.name}",))
+    if not n_targets:
+        raise AnalysisError("no execute(...) definition accepts what Pipeline hands over")
+    for (rel, qn, text), (st, path) in sorted(flow.sites.items(), key=lambda kv: kv[0]):
+        R.violation(
+            r_spec, rel, qn, text,
+            "in-place store into an object owned by the long-lived Pipeline (reached from the specification it hands to every run) on the per-run path: "
+            "what this run computed - a generated / specialised class, a resolved object - becomes the input of the next run of the same Pipeline, "
+            "so per-run results chain (each run's class derives from the previous run's) or stay pinned for the life of the Pipeline",
+            getattr(st, "lineno", 0), list(path),
+        )
+    for (rel, qn), n in sorted(flow.visited.items()):
+        if n and not any(k[0] == rel and k[1] == qn for k in flow.sites):
+            R.ok(r_spec, rel, qn, f"{n} in-place store(s) on values derived from the run input: all on run-owned copies", "")
+    R.extra["spec_flow_functions"] = len(flow.visited)
+
+
+# ---------------------------------------------------------------------------------------------- D4
+# Ownership analysis of the specification a long-lived Pipeline hands to every run.
+#
+# Abstract value of an expression: SHARED (the object itself belongs to the Pipeline: a store into it
+# survives the run), OWNED (created by this run, or unrelated) or a tree _Own(children, default): the
+# object itself is run-owned, what it holds under key k is children[k] (else default).
+
+PIPE = "semantiva/pipeline/pipeline.py"
+SHARED, OWNED = "SHARED", "OWNED"
+COPY_CALLS = {"dict", "list", "copy", "set", "tuple", "sorted", "frozenset", "OrderedDict"}
+VIEW_CALLS = {"items", "values", "enumerate", "zip", "reversed", "iter", "keys"}
+STORE_MUTATORS = {
+    "append", "extend", "add", "update", "pop", "popitem", "setdefault", "clear", "remove", "insert",
+    "discard", "sort", "reverse", "__setitem__", "__delitem__",
+}
+
+
+class _Own:
+    __slots__ = ("children", "default")
+
+    def __init__(self, children=None, default=OWNED):
+        self.children = dict(children or {})
+        self.default = default
+
+
+def _own_child(v, key):
+    if v in (SHARED, OWNED):
+        return v
+    if key != "*" and key in v.children:
+        return v.children[key]
+    if key == "*":
+        out = v.default
+        for c in v.children.values():
+            out = _own_join(out, c)
+        return out
+    return _own_join(v.default, v.children["*"]) if "*" in v.children else v.default
+
+
+def _own_join(a, b):
+    if a == SHARED or b == SHARED:
+        return SHARED
+    if a == OWNED:
+        return b
+    if b == OWNED:
+        return a
+    keys = set(a.children) | set(b.children)
+    return _Own({k: _own_join(_own_child(a, k) if k in a.children else a.default, _own_child(b, k) if k in b.children else b.default) for k in keys}, _own_join(a.default, b.default))
+
+
+def _own_copy(v):
+    """Ownership of dict(x) / list(x) / x.copy(): a new top level holding what x held."""
+    if v == OWNED:
+        return OWNED
+    if v == SHARED:
+        return _Own(default=SHARED)
+    return _Own(v.children, v.default)
+
+
+def _own_key(v):
+    if v in (SHARED, OWNED):
+        return v
+    return ("T", tuple(sorted((str(k), _own_key(c)) for k, c in v.children.items())), _own_key(v.default))
+
+
+def _is_related(v) -> bool:
+    return v != OWNED
+
+
+class _SpecFlow:
+    """Interprocedural (depth-bounded, memoised) search for stores into objects the Pipeline owns."""
+
+    MAX_DEPTH = 8
+
+    def __init__(self, repo: Repo):
+        self.repo = repo
+        self.memo: Dict[Tuple[int, tuple], object] = {}
+        self.sites: Dict[Tuple[str, str, str], Tuple[ast.AST, Tuple[str, ...]]] = {}
+        self.visited: Dict[Tuple[str, str], int] = {}
+
+    # -- one function --------------------------------------------------------------------------
+    def analyse(self, mod, fn: ast.AST, params: Dict[str, object], path: Tuple[str, ...]) -> object:
+        from ..cfg import CFG
+
+        key = (id(fn), tuple(sorted((k, _own_key(v)) for k, v in params.items())))
+        if key in self.memo:
+            return self.memo[key]
+        self.memo[key] = OWNED  # recursion: assume owned while in progress
+        if len(path) > self.MAX_DEPTH:
+            return OWNED
+        qn = qualname_of(fn)
+        here = path + (f"{mod.rel}:{qn}",)
+        self.repo.consulted.add(mod.rel)
+        g = CFG(fn, may_raise=lambda p: set())
+        ctx = _FnCtx(self, mod, fn, g, params, here)
+        n_sites = 0
+        for st, container in _store_sites(fn):
+            v = ctx.value(container, st)
+            if _is_related(v) or _mentions(container, params):
+                n_sites += 1
+            if v == SHARED:
+                self.sites.setdefault((mod.rel, qn, norm(st)), (st, here))
+        self.visited[(mod.rel, qn)] = self.visited.get((mod.rel, qn), 0) + n_sites
+        # calls that receive a related value
+        for c in calls_in(fn):
+            ctx.call_result(c)
+        ret: object = OWNED
+        for n in walk_no_nested(fn):
+            if isinstance(n, ast.Return) and n.value is not None:
+                ret = _own_join(ret, ctx.value(n.value, n))
+        self.memo[key] = ret
+        return ret
+
+
+def _mentions(expr: ast.AST, params: Dict[str, object]) -> bool:
+    return any(isinstance(x, ast.Name) and x.id in params for x in ast.walk(expr))
+
+
+def _store_sites(fn: ast.AST) -> List[Tuple[ast.AST, ast.AST]]:
+    """(statement, container expression) for every in-place store / delete / mutator call in *fn*."""
+    out = []
+    for n in walk_no_nested(fn):
+        tgts: List[ast.AST] = []
+        if isinstance(n, ast.Assign):
+            tgts = list(n.targets)
+        elif isinstance(n, (ast.AugAssign, ast.AnnAssign)):
+            tgts = [n.target]
+        elif isinstance(n, ast.Delete):
+            tgts = list(n.targets)
+        for t in tgts:
+            for el in (t.elts if isinstance(t, (ast.Tuple, ast.List)) else [t]):
+                if isinstance(el, ast.Subscript):
+                    out.append((n, el.value))
+        if isinstance(n, ast.Call) and isinstance(n.func, ast.Attribute) and n.func.attr in STORE_MUTATORS:
+            out.append((stmt_of(n), n.func.value))
+    return out
+
+
+class _FnCtx:
+    def __init__(self, flow: _SpecFlow, mod, fn, g, params: Dict[str, object], path: Tuple[str, ...]):
+        self.flow, self.mod, self.fn, self.g, self.params, self.path = flow, mod, fn, g, params, path
+        self.name_cache: Dict[Tuple[str, int], object] = {}
+        self.call_cache: Dict[int, object] = {}
+
+    def _use_node(self, at: ast.AST) -> Optional[int]:
+        st = at
+        while st is not None and not self.g.nodes_for(st):
+            if st is self.fn:
+                return None
+            st = parent(st)
+        if st is None:
+            return None
+        ids = self.g.nodes_for(st)
+        return ids[0] if ids else None
+
+    def value(self, expr: Optional[ast.AST], at: ast.AST, env: Optional[Dict[str, object]] = None) -> object:
+        from ..cfg import reaching_defs
+
+        if expr is None or isinstance(expr, ast.Constant):
+            return OWNED
+        if isinstance(expr, ast.Name):
+            if env and expr.id in env:
+                return env[expr.id]
+            use = self._use_node(at)
+            if use is None:
+                return self.params.get(expr.id, OWNED)
+            ck = (expr.id, use)
+            if ck in self.name_cache:
+                return self.name_cache[ck]
+            self.name_cache[ck] = OWNED
+            defs = reaching_defs(self.g, expr.id, use)
+            if not defs:
+                out = self.params.get(expr.id, OWNED)
+            else:
+                out = OWNED
+                # a parameter that may still hold its incoming value on some path
+                if expr.id in self.params:
+                    blocked = {d.id for d in defs if d.id != use}
+                    if use in self.g.reach([self.g.entry], blocked=blocked):
+                        out = self.params[expr.id]
+                for d in defs:
+                    out = _own_join(out, self._def_value(d, expr.id))
+            self.name_cache[ck] = out
+            return out
+        if isinstance(expr, ast.Subscript):
+            base = self.value(expr.value, at, env)
+            if isinstance(expr.slice, ast.Slice):
+                return _own_copy(base)
+            return _own_child(base, expr.slice.value if isinstance(expr.slice, ast.Constant) else "*")
+        if isinstance(expr, ast.Starred):
+            return self.value(expr.value, at, env)
+        if isinstance(expr, ast.NamedExpr):
+            return self.value(expr.value, at, env)
+        if isinstance(expr, ast.Call):
+            name = call_attr(expr)
+            f = expr.func
+            if name == "deepcopy":
+                return OWNED
+            if name == "loads":
+                return OWNED
+            if name in ("get", "pop", "setdefault") and isinstance(f, ast.Attribute) and expr.args:
+                base = self.value(f.value, at, env)
+                got = _own_child(base, expr.args[0].value if isinstance(expr.args[0], ast.Constant) else "*")
+                if len(expr.args) > 1:
+                    got = _own_join(got, self.value(expr.args[1], at, env))
+                return got
+            if name in COPY_CALLS:
+                src = expr.args[0] if expr.args else (f.value if isinstance(f, ast.Attribute) else None)
+                out = _own_copy(self.value(src, at, env)) if src is not None else OWNED
+                for kw in expr.keywords:  # dict(x, k=v)
+                    if kw.arg is not None and _is_related(self.value(kw.value, at, env)):
+                        out = _own_join(out if out != OWNED else _Own(), _Own({kw.arg: self.value(kw.value, at, env)}))
+                return out
+            if name in VIEW_CALLS:
+                srcs = list(expr.args) if isinstance(f, ast.Name) else [f.value]
+                out = OWNED
+                for s in srcs:
+                    out = _own_join(out, self.value(s, at, env))
+                return out
+            if name == "cast" and len(expr.args) == 2:
+                return self.value(expr.args[1], at, env)
+            if env is None:
+                return self.call_result(expr)
+            return self._call_with(expr, at, env)
+        if isinstance(expr, ast.Dict):
+            children: Dict[object, object] = {}
+            default: object = OWNED
+            related = False
+            for k, v in zip(expr.keys, expr.values):
+                inner = self.value(v, at, env)
+                related = related or _is_related(inner)
+                if k is None:
+                    if inner == SHARED:
+                        default = SHARED
+                    elif isinstance(inner, _Own):
+                        default = _own_join(default, inner.default)
+                        for kk, vv in inner.children.items():
+                            children[kk] = vv
+                elif isinstance(k, ast.Constant):
+                    children[k.value] = inner
+                else:
+                    children["*"] = _own_join(children.get("*", OWNED), inner)
+            return _Own(children, default) if related else OWNED
+        if isinstance(expr, (ast.List, ast.Tuple, ast.Set)):
+            worst: object = OWNED
+            for e in expr.elts:
+                worst = _own_join(worst, self.value(e, at, env))
+            return _Own({"*": worst}) if _is_related(worst) else OWNED
+        if isinstance(expr, (ast.ListComp, ast.SetComp, ast.GeneratorExp, ast.DictComp)):
+            env2 = dict(env or {})
+            for gen in expr.generators:
+                it = self.value(gen.iter, at, env2)
+                elem = _own_child(it, "*")
+                for nm in [x.id for x in ast.walk(gen.target) if isinstance(x, ast.Name)]:
+                    env2[nm] = elem
+            elt = expr.value if isinstance(expr, ast.DictComp) else expr.elt
+            inner = self.value(elt, at, env2)
+            return _Own({"*": inner}) if _is_related(inner) else OWNED
+        if isinstance(expr, ast.IfExp):
+            return _own_join(self.value(expr.body, at, env), self.value(expr.orelse, at, env))
+        if isinstance(expr, ast.BoolOp):
+            out = OWNED
+            for v in expr.values:
+                out = _own_join(out, self.value(v, at, env))
+            return out
+        return OWNED
+
+    def _def_value(self, d, name: str) -> object:
+        a = d.ast
+        if d.kind == "for" and isinstance(a, ast.For):
+            return _own_child(self.value(a.iter, a), "*")
+        if d.kind in ("with", "except"):
+            return OWNED
+        val = getattr(a, "value", None)
+        if val is None:
+            return OWNED
+        if isinstance(a, ast.AugAssign):
+            return _own_join(self.value(a.value, a), OWNED)
+        tgts = a.targets if isinstance(a, ast.Assign) else [a.target]
+        out: object = OWNED
+        for t in tgts:
+            if isinstance(t, ast.Name) and t.id == name:
+                out = _own_join(out, self.value(val, a))
+            elif isinstance(t, (ast.Tuple, ast.List)):
+                names = [x.id if isinstance(x, ast.Name) else None for x in t.elts]
+                if name in names:
+                    if isinstance(val, (ast.Tuple, ast.List)) and len(val.elts) == len(t.elts):
+                        out = _own_join(out, self.value(val.elts[names.index(name)], a))
+                    else:
+                        whole = self.value(val, a)
+                        out = _own_join(out, _own_child(whole, names.index(name)) if isinstance(whole, _Own) and names.index(name) in whole.children else _own_child(whole, "*"))
+                elif any(isinstance(x, ast.Name) and x.id == name for x in ast.walk(t)):
+                    out = _own_join(out, _own_child(_own_child(self.value(val, a), "*"), "*"))
+        return out
+
+    # -- calls ---------------------------------------------------------------------------------
+    def call_result(self, call: ast.Call) -> object:
+        if id(call) in self.call_cache:
+            return self.call_cache[id(call)]
+        self.call_cache[id(call)] = OWNED
+        out = self._call_with(call, call, None)
+        self.call_cache[id(call)] = out
+        return out
+
+    def _call_with(self, call: ast.Call, at: ast.AST, env) -> object:
+        argvals = [(None, self.value(a, at, env)) for a in call.args if not isinstance(a, ast.Starred)]
+        kwvals = [(k.arg, self.value(k.value, at, env)) for k in call.keywords if k.arg is not None]
+        if not any(_is_related(v) for _k, v in argvals + kwvals):
+            return OWNED
+        try:
+            targets = self.flow.repo.resolve_call(self.mod, call)
+        except Exception:
+            targets = []
+        out: object = OWNED
+        for tmod, tfn in targets:
+            if not isinstance(tfn, FuncNode):
+                continue
+            a = tfn.args
+            pos = [p.arg for p in a.posonlyargs + a.args]
+            deco = {dotted_name(d) for d in tfn.decorator_list}
+            in_class = isinstance(parent(tfn), ast.ClassDef)
+            if in_class and "staticmethod" not in deco and pos:
+                pos = pos[1:]
+            binding: Dict[str, object] = {}
+            for p, (_k, v) in zip(pos, argvals):
+                binding[p] = v
+            names = set(pos) | {p.arg for p in a.kwonlyargs}
+            for k, v in kwvals:
+                if k in names:
+                    binding[k] = v
+                elif a.kwarg is not None:
+                    binding[a.kwarg.arg] = _own_join(binding.get(a.kwarg.arg, OWNED), _Own({"*": v}) if _is_related(v) else OWNED)
+            binding = {k: v for k, v in binding.items() if _is_related(v)}
+            if not binding:
+                continue
+            res = self.flow.analyse(tmod, tfn, binding, self.path)
+            if tfn.name != "__init__":
+                out = _own_join(out, res)
+        return out
